@@ -38,7 +38,7 @@ type Out = Result<String, String>;
 macro_rules! backend_runner {
     ($fname:ident, $V:ty, $aad:expr) => {
         /// keys: (local, secret, public); returns per-thread result lists
-        fn $fname(local: &[u8], sk: &[u8], extra: &Extra, threads: usize, ops_per_thread: usize, seed: u64, history: bool, first_use: bool) -> (Vec<Vec<(u64, Out)>>, Vec<Vec<(u64, Out)>>) {
+        fn $fname(local: &[u8], sk: &[u8], extra: &Extra, threads: usize, ops_per_thread: usize, seed: u64, history: bool, first_use: bool, only: &[u64]) -> (Vec<Vec<(u64, Out)>>, Vec<Vec<(u64, Out)>>) {
             type LK = Key<$V, Local>;
             type SK = Key<$V, Secret>;
             type PK = Key<$V, Public>;
@@ -206,7 +206,7 @@ macro_rules! backend_runner {
             let shared = Arc::new(if first_use { mk_unused(local, sk, &donor) } else { donor });
             // plan: per thread, a seeded list of (op code, index)
             let mut g = SplitMix64::new(seed);
-            let plans: Vec<Vec<(u64, u64)>> = (0..threads).map(|t| (0..ops_per_thread).map(|j| (g.below(N_OPS), (t * 1000 + j) as u64)).collect()).collect();
+            let plans: Vec<Vec<(u64, u64)>> = (0..threads).map(|t| (0..ops_per_thread).map(|j| (if only.is_empty() { g.below(N_OPS) } else { *g.pick(only) }, (t * 1000 + j) as u64)).collect()).collect();
             // oracle: each operation on a FRESH copy of the keys, sequentially
             let oracle: Vec<Vec<(u64, Out)>> = plans
                 .iter()
@@ -262,7 +262,7 @@ backend_runner!(run_v4s, V4S, true);
 
 pub fn run(ctx: &Ctx) {
     let mut rep = Report::new("C17", &ctx.tier, ctx.seed);
-    rep.rule = "per backend one key set shared through Arc by 2, 4, 8, 16 threads, each performing a seeded random list of: sign+verify, verify good / corrupted token, dangerous_seal_with_nonce (deterministic), decrypt good / corrupted token, clone+sign+drop, Display / id / expose, wrap_pie round trip, wrong-purpose unseal, password unwrap of six wrapped copies with the right and with a wrong password, seal + unseal, unseal of a fixed sealed key by its recipient and by an unrelated recipient key; every result compared with the sequential oracle (the same operation on a fresh copy); the oracle runs every operation on a fresh copy of the keys AND on a fresh thread (no key state, no thread-local state); each operation also has a verdict the property fixes (good tokens verify, corrupted ones fail); the same plans also run as single-thread histories on one key object (failed operations interleaved with successful ones); many short rounds of 8 threads released together by a barrier make the first use of key objects that were only parsed; clone / drop storms (8 threads x 20000 clones of the shared secret, public and local key) on fresh key sets, the key used afterwards; distinct = (backend, thread count, operation, outcome)".into();
+    rep.rule = "per backend one key set shared through Arc by 2, 4, 8, 16 threads, each performing a seeded random list of: sign+verify, verify good / corrupted token, dangerous_seal_with_nonce (deterministic), decrypt good / corrupted token, clone+sign+drop, Display / id / expose, wrap_pie round trip, wrong-purpose unseal, password unwrap of six wrapped copies with the right and with a wrong password, seal + unseal, unseal of a fixed sealed key by its recipient and by an unrelated recipient key; every result compared with the sequential oracle (the same operation on a fresh copy); the oracle runs every operation on a fresh copy of the keys AND on a fresh thread (no key state, no thread-local state); each operation also has a verdict the property fixes (good tokens verify, corrupted ones fail); the same plans also run as single-thread histories on one key object (failed operations interleaved with successful ones); many short rounds of 8 threads released together by a barrier make the first use of key objects that were only parsed; wrapping storms (8 threads doing only password unwraps of six different wrapped copies, only unseals); clone / drop storms (8 threads x 20000 clones of the shared secret, public and local key) on fresh key sets, the key used afterwards; distinct = (backend, thread count, operation, outcome)".into();
     let bs = lab::backends();
     let mut g = SplitMix64::new(ctx.seed ^ 0xC17);
     let thorough = ctx.thorough();
@@ -304,21 +304,27 @@ pub fn run(ctx: &Ctx) {
         // single-thread histories, and many short rounds in which 8 threads leave a barrier together to make the
         // FIRST use of key objects that were only parsed
         let rounds = if b.name == "v1" { if thorough { 40 } else { 6 } } else if thorough { 1500 } else { 120 };
-        let mut phases: Vec<(bool, bool, Vec<usize>, usize)> = vec![(false, false, thread_counts.clone(), per_thread), (true, false, vec![1usize], per_thread)];
-        phases.push((false, true, vec![8usize; rounds], 2));
+        let mut phases: Vec<(bool, bool, Vec<usize>, usize, Vec<u64>)> = vec![(false, false, thread_counts.clone(), per_thread, vec![]), (true, false, vec![1usize], per_thread, vec![])];
+        phases.push((false, true, vec![8usize; rounds], 2, vec![]));
+        // wrapping storms: 8 threads doing nothing but password unwraps of different wrapped copies (right and wrong
+        // password), and nothing but unseals (right and wrong recipient) — shared caches or memos behind these
+        // operations need contention to go wrong
+        let storm_ops = if b.name == "v1" { if thorough { 60 } else { 10 } } else if thorough { 3000 } else { 400 };
+        phases.push((false, false, vec![8usize; 3], storm_ops, vec![10, 10, 10, 11]));
+        phases.push((false, false, vec![8usize; 2], if b.name == "v1" { storm_ops } else { storm_ops / 2 }, vec![13, 13, 14, 12]));
         // clone / drop storms on fresh key sets (per_thread = 0; the seed slot carries the number of clone/drop rounds)
         let storms = if thorough { 40 } else { 8 };
-        phases.push((false, false, vec![8usize; storms], 0));
-        for (mode, first_use, tcs, per_thread) in phases {
+        phases.push((false, false, vec![8usize; storms], 0, vec![]));
+        for (mode, first_use, tcs, per_thread, only) in phases {
             for &tc in &tcs {
                 let seed = if per_thread == 0 { if b.name == "v1" { 300 } else if thorough { 50_000 } else { 20_000 } } else { g.next() };
                 let (got, oracle) = match b.name {
-                    "v1" => run_v1(&local, &sk, &extra, tc, per_thread, seed, mode, first_use),
-                    "v2" => run_v2(&local, &sk, &extra, tc, per_thread, seed, mode, first_use),
-                    "v3" => run_v3(&local, &sk, &extra, tc, per_thread, seed, mode, first_use),
-                    "v3-aws-lc" => run_v3l(&local, &sk, &extra, tc, per_thread, seed, mode, first_use),
-                    "v4" => run_v4(&local, &sk, &extra, tc, per_thread, seed, mode, first_use),
-                    _ => run_v4s(&local, &sk, &extra, tc, per_thread, seed, mode, first_use),
+                    "v1" => run_v1(&local, &sk, &extra, tc, per_thread, seed, mode, first_use, &only),
+                    "v2" => run_v2(&local, &sk, &extra, tc, per_thread, seed, mode, first_use, &only),
+                    "v3" => run_v3(&local, &sk, &extra, tc, per_thread, seed, mode, first_use, &only),
+                    "v3-aws-lc" => run_v3l(&local, &sk, &extra, tc, per_thread, seed, mode, first_use, &only),
+                    "v4" => run_v4(&local, &sk, &extra, tc, per_thread, seed, mode, first_use, &only),
+                    _ => run_v4s(&local, &sk, &extra, tc, per_thread, seed, mode, first_use, &only),
                 };
                 for (t, (g_t, o_t)) in got.iter().zip(oracle.iter()).enumerate() {
                     if g_t.len() != o_t.len() {
